@@ -25,7 +25,7 @@ func addU(m map[string][]string, b, k string) {
 
 func structOf(k string) string {
 	switch {
-	case k == "put" || k == "putts" || k == "del" || k == "get" || k == "getall" || k == "rangescan" || strings.HasPrefix(k, "prefix"):
+	case k == "put" || k == "putts" || k == "putbig" || k == "del" || k == "get" || k == "getall" || k == "rangescan" || strings.HasPrefix(k, "prefix"):
 		return "kv"
 	case k[0] == 'l' || k[0] == 'r':
 		return "l"
